@@ -4,11 +4,17 @@ package vlib
 
 import (
 	"encoding/json"
+	"flag"
 	"fmt"
+	"io"
 	"os"
 	"path/filepath"
 	"sort"
+	"strconv"
+	"strings"
 	"sync"
+
+	"k8s.io/klog/v2"
 )
 
 // Stats accumulates what a check actually explored; the driver merges the files of
@@ -160,4 +166,86 @@ func LoadReplay() (*Failure, error) {
 		return nil, err
 	}
 	return &f, nil
+}
+
+// Replayers maps "<prop>/<part>" to a function that re-runs executor+oracle on a saved
+// case without involving rapid. Each test package registers its own.
+var Replayers = map[string]func(raw json.RawMessage) error{}
+
+// RunReplay implements TestReplay for a package: returns (ran, error).
+func RunReplay() (string, bool, error) {
+	f, err := LoadReplay()
+	if err != nil {
+		return "", true, fmt.Errorf("cannot load replay: %v", err)
+	}
+	if f == nil {
+		return "", false, nil
+	}
+	r, ok := Replayers[f.Prop+"/"+f.Part]
+	if !ok {
+		return f.Prop + "/" + f.Part, false, nil
+	}
+	if err := r(f.Case); err != nil {
+		fmt.Printf("REPLAY-FAIL property=%s part=%s: %v\n", f.Prop, f.Part, err)
+		return f.Prop + "/" + f.Part, true, err
+	}
+	fmt.Printf("REPLAY-OK property=%s part=%s\n", f.Prop, f.Part)
+	return f.Prop + "/" + f.Part, true, nil
+}
+
+// HistReplayer adapts a func(*HistCase) to the replay registry.
+func HistReplayer(run func(c *HistCase) error) func(json.RawMessage) error {
+	return func(raw json.RawMessage) error {
+		var c HistCase
+		if err := json.Unmarshal(raw, &c); err != nil {
+			return err
+		}
+		return run(&c)
+	}
+}
+
+// SampleOf converts a case to generic JSON for the evidence file.
+func SampleOf(c any) any {
+	b, _ := json.Marshal(c)
+	var v any
+	_ = json.Unmarshal(b, &v)
+	return v
+}
+
+// IsKnown reports whether a finding id is listed in known_findings.txt (the driver
+// passes the ids in $VERIF_KNOWN).
+func IsKnown(id string) bool {
+	for _, k := range strings.Split(os.Getenv("VERIF_KNOWN"), ",") {
+		if k == id {
+			return true
+		}
+	}
+	return false
+}
+
+// Shard returns (i, n) from $VERIF_SHARD.
+func Shard() (int, int) {
+	parts := strings.Split(os.Getenv("VERIF_SHARD"), "/")
+	if len(parts) != 2 {
+		return 0, 1
+	}
+	i, _ := strconv.Atoi(parts[0])
+	n, _ := strconv.Atoi(parts[1])
+	if n <= 0 {
+		return 0, 1
+	}
+	return i, n
+}
+
+// Thorough reports whether the thorough tier is running.
+func Thorough() bool { return os.Getenv("VERIF_TIER") == "thorough" }
+
+// QuietKlog silences klog (the witness logs an ERROR line per root mismatch).
+func QuietKlog() {
+	fs := flag.NewFlagSet("klog", flag.ContinueOnError)
+	klog.InitFlags(fs)
+	_ = fs.Set("logtostderr", "false")
+	_ = fs.Set("alsologtostderr", "false")
+	_ = fs.Set("stderrthreshold", "FATAL")
+	klog.SetOutput(io.Discard)
 }
